@@ -67,6 +67,49 @@ Proof. intro H. apply beq_neq. intro E. apply app_eq_nil in E as [_ E]. contradi
 Lemma contains_byte_app c a b : contains_byte c (a ++ b) = contains_byte c a || contains_byte c b.
 Proof. apply existsb_app. Qed.
 
+Lemma nonempty_app_mid (a s p : bytes) : s <> [] -> beq (a ++ s ++ p) [] = false.
+Proof.
+  intro H. apply beq_neq. intro E. apply app_eq_nil in E as [_ E]. apply app_eq_nil in E as [E _]. contradiction.
+Qed.
+
+Ltac sstep := cbn [before_semi from_semi existsb app trim_right orb].
+
+Lemma before_semi_no_semi h : contains_semicolon (before_semi h) = false.
+Proof.
+  unfold contains_semicolon, contains_byte. induction h as [|c r IH]; sstep; [reflexivity|].
+  destruct (N.eqb 59 c) eqn:E; sstep; [reflexivity|]. now rewrite E.
+Qed.
+
+Lemma before_semi_id h : contains_semicolon h = false -> before_semi h = h.
+Proof.
+  unfold contains_semicolon, contains_byte. induction h as [|c r IH]; sstep; [reflexivity|].
+  destruct (N.eqb 59 c) eqn:E; sstep; [discriminate|]. intro H. now rewrite IH.
+Qed.
+
+Lemma before_semi_app h r : contains_semicolon h = false -> before_semi (h ++ 59 :: r) = h.
+Proof.
+  unfold contains_semicolon, contains_byte. induction h as [|c t IH]; sstep.
+  - intros _. now rewrite N.eqb_refl.
+  - destruct (N.eqb 59 c) eqn:E; sstep; [discriminate|]. intro H. now rewrite IH.
+Qed.
+
+Lemma from_semi_head h : contains_semicolon h = true -> exists r, from_semi h = 59 :: r.
+Proof.
+  unfold contains_semicolon, contains_byte. induction h as [|c t IH]; sstep; [discriminate|].
+  destruct (N.eqb 59 c) eqn:E; sstep.
+  - intros _. apply N.eqb_eq in E. subst c. now exists t.
+  - exact IH.
+Qed.
+
+Lemma trim_right_no c s : contains_byte c s = false -> contains_byte c (trim_right s) = false.
+Proof.
+  unfold contains_byte. induction s as [|x r IH]; sstep; [reflexivity|].
+  intro H. apply orb_false_iff in H as [Hx Hr]. specialize (IH Hr).
+  destruct (trim_right r) as [|y t] eqn:T.
+  - destruct (is_sp_tab x); sstep; [reflexivity|]. now rewrite Hx.
+  - change (existsb (N.eqb c) (x :: y :: t)) with (N.eqb c x || existsb (N.eqb c) (y :: t)). now rewrite Hx, IH.
+Qed.
+
 (* ------------------------------------------------------------------ classification *)
 
 (* the two separately written switches agree *)
@@ -142,8 +185,8 @@ Lemma set_content_type_cases h ct :
   (h = [] /\ r = ct)
   \/ (h <> [] /\ ct <> app_json /\ ct <> app_xml /\ r = ct)
   \/ (h <> [] /\ (ct = app_json \/ ct = app_xml) /\ contains_plus h = true /\ r = h)
-  \/ (h <> [] /\ ct = app_json /\ contains_plus h = false /\ r = h ++ sfx_json)
-  \/ (h <> [] /\ ct = app_xml /\ contains_plus h = false /\ r = h ++ sfx_xml).
+  \/ (h <> [] /\ ct = app_json /\ contains_plus h = false /\ r = insert_suffix sfx_json h)
+  \/ (h <> [] /\ ct = app_xml /\ contains_plus h = false /\ r = insert_suffix sfx_xml h).
 Proof.
   unfold set_content_type. simpl.
   destruct (beq h []) eqn:E0; [apply beq_eq in E0; auto|]. apply beq_neq in E0.
@@ -210,22 +253,50 @@ Section WithOracle.
 
   Hypothesis Hsfx : parser_keeps_suffix pmt.
 
-  Lemma decoder_of_appended h sfx k :
-    (sfx = sfx_json /\ k = KJson) \/ (sfx = sfx_xml /\ k = KXml) ->
-    contains_semicolon h = false -> response_decoder pmt (h ++ sfx) = k.
+  Hypothesis Hacc : parser_accepts_suffixed pmt.
+
+  Lemma dec_classify_of_suffix sfx k m :
+    (sfx = sfx_json /\ k = KJson) \/ (sfx = sfx_xml /\ k = KXml) -> has_suffix sfx m = true -> dec_classify m = k.
   Proof.
-    intros S Hsemi. unfold response_decoder.
-    assert (Hne : beq (h ++ sfx) [] = false) by (apply nonempty_app_r; destruct S as [[-> _]|[-> _]]; discriminate).
-    rewrite Hne. unfold norm. destruct (pmt (h ++ sfx)) as [m|] eqn:P.
-    - assert (Hs2 : contains_semicolon (h ++ sfx) = false).
-      { unfold contains_semicolon in *. rewrite contains_byte_app, Hsemi. destruct S as [[-> _]|[-> _]]; reflexivity. }
-      destruct (Hsfx _ _ Hs2 P) as [HJ HX].
-      destruct S as [[-> ->]|[-> ->]].
-      + apply dec_classify_sfx_json, HJ, has_suffix_app.
-      + apply dec_classify_sfx_xml, HX, has_suffix_app.
-    - destruct S as [[-> ->]|[-> ->]].
-      + apply dec_classify_sfx_json, has_suffix_app.
-      + apply dec_classify_sfx_xml, has_suffix_app.
+    intros [[-> ->]|[-> ->]] H; [now apply dec_classify_sfx_json|now apply dec_classify_sfx_xml].
+  Qed.
+
+  (* b ++ sfx ++ p with p empty or starting at the first ';': read back as the kind of sfx,
+     provided the parser accepts it or there are no parameters *)
+  Lemma decoder_of_suffixed b sfx p k :
+    (sfx = sfx_json /\ k = KJson) \/ (sfx = sfx_xml /\ k = KXml) ->
+    contains_semicolon b = false ->
+    (p = [] \/ ((exists r, p = 59 :: r) /\ pmt (b ++ sfx ++ p) <> None)) ->
+    response_decoder pmt (b ++ sfx ++ p) = k.
+  Proof.
+    intros S Hb Hp. unfold response_decoder.
+    assert (Hne : beq (b ++ sfx ++ p) [] = false)
+      by (apply nonempty_app_mid; destruct S as [[-> _]|[-> _]]; discriminate).
+    rewrite Hne. unfold norm.
+    assert (Hp' : p = [] \/ exists r, p = 59 :: r) by (destruct Hp as [->|[Hr _]]; auto).
+    destruct (pmt (b ++ sfx ++ p)) as [m|] eqn:P.
+    - apply (dec_classify_of_suffix sfx k m S).
+      destruct (Hsfx b p m Hb Hp') as [HJ HX].
+      destruct S as [[-> _]|[-> _]]; [apply HJ|apply HX]; exact P.
+    - destruct Hp as [->|[_ Hn]]; [|contradiction].
+      apply (dec_classify_of_suffix sfx k _ S). rewrite app_nil_r. apply has_suffix_app.
+  Qed.
+
+  Lemma decoder_of_inserted h sfx k :
+    (sfx = sfx_json /\ k = KJson) \/ (sfx = sfx_xml /\ k = KXml) ->
+    contains_plus h = false -> (contains_semicolon h = false \/ (field_safe h = true /\ pmt h <> None)) ->
+    response_decoder pmt (insert_suffix sfx h) = k.
+  Proof.
+    intros S Hplus Hsemi. unfold insert_suffix. destruct (contains_semicolon h) eqn:C.
+    - destruct Hsemi as [Hs|[Hsafe Hs]]; [discriminate|].
+      destruct (pmt h) as [m0|] eqn:P0; [|contradiction].
+      destruct (from_semi_head h C) as [r Hr].
+      apply decoder_of_suffixed; [exact S| |right; split; [eauto|]].
+      + apply trim_right_no. apply before_semi_no_semi.
+      + destruct (Hacc h m0 Hsafe Hplus C P0) as [AJ AX]. unfold insert_suffix in AJ, AX. rewrite C in AJ, AX.
+        destruct S as [[-> _]|[-> _]]; assumption.
+    - replace (h ++ sfx) with (h ++ sfx ++ []) by now rewrite app_nil_r.
+      apply decoder_of_suffixed; auto.
   Qed.
 
   Lemma roundtrip_preset accept ct preset k hdr :
@@ -242,10 +313,10 @@ Section WithOracle.
       destruct Hk2 as [-> | ->]; destruct Hok as [E|[[E _]|[_ E]]]; try contradiction; try congruence.
     - vm_compute in Hk. subst k. unfold preset_ok in Hok.
       destruct Hok as [E|[[_ E]|[E _]]]; [contradiction| |congruence].
-      apply decoder_of_appended; auto.
+      apply decoder_of_inserted; auto.
     - vm_compute in Hk. subst k. unfold preset_ok in Hok.
       destruct Hok as [E|[[_ E]|[E _]]]; [contradiction| |congruence].
-      apply decoder_of_appended; auto.
+      apply decoder_of_inserted; auto.
   Qed.
 
   (* missing or unrecognised preference: JSON, announced as application/json *)
@@ -380,31 +451,34 @@ Proof. reflexivity. Qed.
 
 (* ------------------------------------------------------------------ witnesses *)
 
-(* a parser that returns its argument: satisfies the three hypotheses *)
-Definition id_parser (s : bytes) : option bytes := Some s.
-
-Lemma id_parser_sane :
-  parser_stable id_parser /\ parser_fixes_supported id_parser /\ parser_keeps_suffix id_parser.
+Lemma before_semi_suffixed b sfx p :
+  contains_semicolon b = false -> contains_semicolon sfx = false -> (p = [] \/ exists r, p = 59 :: r) ->
+  before_semi (b ++ sfx ++ p) = b ++ sfx.
 Proof.
-  repeat split; try reflexivity; intros; unfold id_parser in *; congruence.
+  intros Hb Hs Hp.
+  assert (J : contains_semicolon (b ++ sfx) = false)
+    by (unfold contains_semicolon in *; now rewrite contains_byte_app, Hb, Hs).
+  rewrite app_assoc. destruct Hp as [->|[r ->]]; [rewrite app_nil_r; now apply before_semi_id|now apply before_semi_app].
 Qed.
 
-(* a parser that cuts the parameters of one particular header value, as Go's does *)
-Definition w_hdr : bytes := Eval vm_compute in bs "application/vnd.x; charset=utf-8+xml".
-Definition w_mt : bytes := Eval vm_compute in bs "application/vnd.x".
-Definition cut_parser (s : bytes) : option bytes := if beq s w_hdr then Some w_mt else Some s.
+(* a parser that returns what stands in front of the first ';' (as Go's does, up to case
+   and blanks): satisfies the four hypotheses *)
+Definition cut_parser (s : bytes) : option bytes := Some (before_semi s).
 
 Lemma cut_parser_sane :
-  parser_stable cut_parser /\ parser_fixes_supported cut_parser /\ parser_keeps_suffix cut_parser.
+  parser_stable cut_parser /\ parser_fixes_supported cut_parser /\ parser_keeps_suffix cut_parser
+  /\ parser_accepts_suffixed cut_parser.
 Proof.
-  split; [|split].
-  - intros s m H. unfold cut_parser in H. unfold norm, cut_parser.
-    destruct (beq s w_hdr) eqn:E; injection H as <-; [reflexivity|now rewrite E].
+  split; [|split; [|split]].
+  - intros s m H. unfold cut_parser in H. injection H as <-. unfold norm, cut_parser.
+    apply before_semi_id, before_semi_no_semi.
   - intros c Hin. apply in_supported_iff in Hin.
     destruct Hin as [->|[->|[->|[->| ->]]]]; reflexivity.
-  - intros s m Hsemi H. unfold cut_parser in H. destruct (beq s w_hdr) eqn:E.
-    + apply beq_eq in E. subst s. vm_compute in Hsemi. discriminate.
-    + injection H as <-. auto.
+  - intros b p m Hb Hp. unfold cut_parser.
+    split; intro H.
+    + assert (E : m = before_semi (b ++ sfx_json ++ p)) by congruence. rewrite E, before_semi_suffixed; auto using has_suffix_app.
+    + assert (E : m = before_semi (b ++ sfx_xml ++ p)) by congruence. rewrite E, before_semi_suffixed; auto using has_suffix_app.
+  - intros h m _ _ _ _. unfold cut_parser. split; discriminate.
 Qed.
 
 (* toy codecs: one tag byte per format, then the payload; they round trip, and a decoder
@@ -436,31 +510,26 @@ Qed.
 Definition w_preset_xml : bytes := Eval vm_compute in bs "application/vnd.x+xml".
 
 Lemma preset_suffix_witness :
-  response_encoder id_parser (fun _ => []) [] [] w_preset_xml = (Some KJson, w_preset_xml)
-  /\ response_decoder id_parser w_preset_xml = KXml
+  response_encoder cut_parser (fun _ => []) [] [] w_preset_xml = (Some KJson, w_preset_xml)
+  /\ response_decoder cut_parser w_preset_xml = KXml
   /\ forall v b, encode toy_enc KJson v = Some b ->
-                 decode toy_dec (response_decoder id_parser w_preset_xml) (shape_of v) b = None.
+                 decode toy_dec (response_decoder cut_parser w_preset_xml) (shape_of v) b = None.
 Proof.
   split; [vm_compute; reflexivity|]. split; [vm_compute; reflexivity|].
-  intros v b H. change (response_decoder id_parser w_preset_xml) with KXml.
+  intros v b H. change (response_decoder cut_parser w_preset_xml) with KXml.
   simpl in H. unfold toy_enc in H. injection H as <-. reflexivity.
 Qed.
 
-(* the second finding: a pre-set header with parameters; the suffix lands behind the
-   parameter, the parser cuts it off with the parameters, the decoder falls back to JSON *)
+(* what used to be the second finding (repaired in /repo 04b25e0): a pre-set header with
+   parameters now gets the suffix in front of them and the decoder reads it as XML *)
 Definition w_preset_params : bytes := Eval vm_compute in bs "application/vnd.x; charset=utf-8".
+Definition w_hdr : bytes := Eval vm_compute in bs "application/vnd.x+xml; charset=utf-8".
 
-Lemma preset_params_witness :
+Lemma preset_params_example :
   response_encoder cut_parser (fun _ => []) app_xml [] w_preset_params = (Some KXml, w_hdr)
-  /\ contains_plus w_preset_params = false
-  /\ response_decoder cut_parser w_hdr = KJson
-  /\ forall v b, encode toy_enc KXml v = Some b ->
-                 decode toy_dec (response_decoder cut_parser w_hdr) (shape_of v) b = None.
-Proof.
-  split; [vm_compute; reflexivity|]. split; [reflexivity|]. split; [vm_compute; reflexivity|].
-  intros v b H. change (response_decoder cut_parser w_hdr) with KJson.
-  simpl in H. unfold toy_enc in H. injection H as <-. reflexivity.
-Qed.
+  /\ response_decoder cut_parser w_hdr = KXml
+  /\ set_content_type (bs "text/plain ; charset=utf-8") app_json = bs "text/plain+json; charset=utf-8".
+Proof. repeat split; vm_compute; reflexivity. Qed.
 
 (* why the round-trip theorems carry hypotheses on the parser: an arbitrary function in the
    place of mime.ParseMediaType (here: one that rewrites application/json) breaks them *)
@@ -470,3 +539,16 @@ Lemma rewriting_parser_witness :
   response_encoder rewriting_parser (fun _ => []) [] [] [] = (Some KJson, app_json)
   /\ response_decoder rewriting_parser app_json = KXml.
 Proof. split; vm_compute; reflexivity. Qed.
+
+(* the repaired case as a statement of its own: a pre-set header with parameters and no '+'
+   that the parser accepts round trips *)
+Lemma roundtrip_preset_params pmt errmt :
+  parser_stable pmt -> parser_fixes_supported pmt -> parser_keeps_suffix pmt -> parser_accepts_suffixed pmt ->
+  forall accept ct preset k hdr,
+    field_safe preset = true -> contains_plus preset = false -> contains_semicolon preset = true -> pmt preset <> None ->
+    response_encoder pmt errmt accept ct preset = (Some k, hdr) -> response_decoder pmt hdr = k.
+Proof.
+  intros Hs Hf Hk Ha accept ct preset k hdr Hsafe Hp Hc Hn H.
+  apply (roundtrip_preset pmt errmt Hs Hf Hk Ha accept ct preset k hdr H).
+  destruct k; simpl; auto 6.
+Qed.
